@@ -67,23 +67,29 @@ def children(doc):
         for i, v in enumerate(doc):
             for c in children(v):
                 yield doc[:i] + [c] + doc[i+1:]
+from jsonschema.exceptions import best_match
+def signature(v, doc):
+    e = best_match(v.iter_errors(doc))
+    return None if e is None else (e.validator, tuple(str(x) for x in e.absolute_schema_path))
 for line in sys.stdin:
     req = json.loads(line)
     v = validator(req["schema"], req["root"])
     doc = req["doc"]
     out = {"valid": v.is_valid(doc)}
     if req.get("shrink") and not out["valid"]:
-        changed, budget = True, 400
+        sig = signature(v, doc)
+        changed, budget = True, 300
         while changed and budget > 0:
             changed = False
             for c in children(doc):
                 budget -= 1
-                if not v.is_valid(c):
+                if signature(v, c) == sig:     # still rejected for the same reason
                     doc, changed = c, True
                     break
                 if budget <= 0:
                     break
         out["shrunk"] = doc
+        out["reason"] = list(sig) if sig else None
     print(json.dumps(out), flush=True)
 '''
 
@@ -238,12 +244,15 @@ class Run:
                         payload["format"], payload["src"] = sm.group(1), sm.group(2)
                 if r[0].startswith("jsvalid ") and len(r) > 3:
                     payload["doc"] = r[3]
+                    if len(r) > 4:
+                        payload["source_doc"] = r[4]
                     sid, pkg, root = r[0].split(" ")[1:4]
                     if (sid, pkg) in emitted:
                         payload["emitted_schema"] = emitted[(sid, pkg)][:20000]
                         sh = py_validate([{"schema": emitted[(sid, pkg)], "root": root, "doc": json.loads(r[3]), "shrink": True}])
                         if sh and "shrunk" in sh[0]:
                             payload["shrunk_doc"] = json.dumps(sh[0]["shrunk"])
+                            payload["rejected_because"] = sh[0].get("reason")
                 c.violation(payload)
 
     def finish(self, stream):
@@ -286,9 +295,9 @@ def replay(c, hb):
                 fh.write(rp["src"] + "\n")
                 srcfile = fh.name
             args = {"file": srcfile, "format": rp.get("format", "jsonschema"), "seed": rp.get("seed", 1), "tier": "replay"}
-            if rp.get("doc"):
+            if rp.get("source_doc") or rp.get("doc"):
                 with tempfile.NamedTemporaryFile("w", suffix=".json", dir=WORK, delete=False) as fh:
-                    fh.write((rp.get("shrunk_doc") or rp["doc"]) + "\n" + rp["doc"] + "\n")
+                    fh.write((rp.get("source_doc") or rp["doc"]) + "\n")
                     args["docfile"] = fh.name
             rows, x = run_stream(c, hb, "c12-lab", **args)
             for f in (srcfile, args.get("docfile")):
